@@ -23,7 +23,7 @@ RULE = ("motifs: every connected atlas graph with <= 5 vertices plus every conne
         ">= 3 vertices and (a cycle or >= 2 distinct u in the answer); distinct = SHA-1 of (edge set, roots, history)")
 ASSUMPTIONS = ["all motifs on one evaluator are distinctly named (as the property stipulates)", "polynomial identity after full expansion; float spot checks at 1e-12",
                "oracle: enumeration of all 2^|E| occupation states with a bitmask component search"]
-HEADLINE = ["queries", "poly_identities", "float_checks", "motifs", "roots", "history_cases", "cross_evaluator_name_reuse", "queries_on_a_kept_motif_object", "requeries_after_in_place_u_update", "cache_hits", "cache_misses", "shadow_unsupported", "nonintegral_float_coercions"]
+HEADLINE = ["queries", "poly_identities", "float_checks", "motifs", "roots", "history_cases", "cross_evaluator_name_reuse", "queries_on_a_kept_motif_object", "requeries_after_in_place_u_update", "calls_aborted_by_injected_recursion_limit", "cache_hits", "cache_misses", "shadow_unsupported", "nonintegral_float_coercions"]
 REQUIRED = {"quick": {"poly_identities_or_numeric": 150, "float_checks": 100, "history_cases": 5, "cache_hits": 20, "requeries_after_in_place_u_update": 10, "queries_with_equal_u_on_all_vertices": 100},
             "thorough": {"poly_identities_or_numeric": 800, "float_checks": 500, "history_cases": 50, "cache_hits": 200, "requeries_after_in_place_u_update": 100, "queries_with_equal_u_on_all_vertices": 500}}
 SHARD_TIMEOUT = {"quick": 900, "thorough": 10800}
@@ -226,6 +226,33 @@ def run_case(case):
         for q in range(case["queries"]):
             name, g, oc = rng.choice(motifs)
             root = rng.choice(list(g.nodes()))
+            if rng.random() < 0.2:
+                # injected fault: the call is made with only a few frames of stack left, so that it is aborted by RecursionError
+                # somewhere inside the library; the caller catches it and asks again - the answer must be the exact one (an
+                # aborted call must not leave half-filled state behind on the evaluator)
+                import sys
+                H0 = motif_object(g, name)
+                for v in g.nodes():
+                    H0.nodes[v]["u"] = 0.5
+                old_limit = sys.getrecursionlimit()
+                depth = 0
+                f = sys._getframe()
+                while f is not None:
+                    depth += 1
+                    f = f.f_back
+                aborted = False
+                try:
+                    sys.setrecursionlimit(depth + rng.randint(3, 14))
+                    try:
+                        ae.automated_equation(H0, 0.5, root)
+                    except RecursionError:
+                        aborted = True
+                    except Exception:
+                        pass
+                finally:
+                    sys.setrecursionlimit(old_limit)
+                hist.append((name, root, "aborted-by-RecursionError" if aborted else "tight-stack-but-completed"))
+                res.count("calls_aborted_by_injected_recursion_limit" if aborted else "tight_stack_calls_completed")
             mode = rng.choice(["poly", "float", "float"])
             hist.append((name, root, mode))
             H = None
